@@ -1,3 +1,4 @@
+import Cvise.Proofs.BinaryGenEq
 import Cvise.Model.Binary
 import Cvise.Gen.Const
 import Cvise.Gen.Tools
